@@ -918,6 +918,38 @@ func ruleCtorReentry(rule string) RuleFn {
 				okEpoch, whyE = false, "the epoch test is "+f+", not an equality of constructorNode.buildingSince and Scope.decoratorsStarted: with an ordering test the guard never fires (the recorded count cannot exceed the current one) and the cross-scope cycle overflows the stack again"
 			}
 		}
+		// polarity: the cycle error is built on the edge where the two counts are EQUAL, never on the other one
+		if okEpoch {
+			isEq := func(ft an.Fact) bool {
+				m := eq.FindStringSubmatch(ft.S)
+				if m == nil {
+					return false
+				}
+				op := m[2] + m[3]
+				return (op == "==") != strings.HasPrefix(ft.S, "!")
+			}
+			eqE := an.EdgesWhere(fn, isEq)
+			neE := an.EdgesWhere(fn, func(ft an.Fact) bool { return eq.MatchString(ft.S) && !isEq(ft) })
+			isCons := func(in ssa.Instruction) bool {
+				al, ok := in.(*ssa.Alloc)
+				return ok && isConstruction(al) && an.IsDigNamed(al.Type(), "errCycleDetected")
+			}
+			reachCons := func(es []an.Edge) bool {
+				for _, e := range es {
+					first := e.From.Succs[e.Succ].Instrs[0]
+					if isCons(first) {
+						return true
+					}
+					if hit, _ := an.PathTo(fn, first, isCons, an.NewGates().AddInstr(mark...)); hit != nil {
+						return true
+					}
+				}
+				return false
+			}
+			if !reachCons(eqE) || reachCons(neE) {
+				okEpoch, whyE = false, "the cycle error is not built exactly where constructorNode.buildingSince EQUALS the current decorator-start count: with the test inverted, a genuine re-entry recurses until the stack overflows and the legitimate one through a decorator is rejected"
+			}
+		}
 		sinceStored := false
 		for _, st := range an.StoresToField(fn, "constructorNode", "buildingSince") {
 			if strings.Contains(an.Norm(st.Val), "decoratorsStarted") {
